@@ -239,8 +239,7 @@ def xml_lengths(ctx: Ctx):
     prog = ctx.prog
     h = X.harness(prog)
     ns = X.URI
-    h.it.class_state[("NamespaceAwareElement", "_ns_prefix")] = "xtce"
-    h.it.class_state[("NamespaceAwareElement", "_nsmap")] = {"xtce": ns}
+    X.set_ns_state(h, "xtce", {"xtce": ns})
 
     def E(tag, attrib=None, children=None, text=None):
         return make_elem(clark(ns, tag), attrib or {}, text, children=children or [])
@@ -293,12 +292,11 @@ def _adjuster_factory(prog):
     from ..xmlmodel import make_elem
     from . import xmlcommon as X
     hx = X.harness(prog)
-    hx.it.class_state[("NamespaceAwareElement", "_ns_prefix")] = None
-    hx.it.class_state[("NamespaceAwareElement", "_nsmap")] = {}
+    X.set_ns_state(hx, None, {})
 
     def mk(slope, intercept):
         el = make_elem("P", children=[make_elem("LinearAdjustment", {"slope": str(slope), "intercept": str(intercept)})])
-        return hx.ev("DataEncoding._get_linear_adjuster(el)", ENC, el=el)
+        return hx.ev(X.adjuster_factory(prog) + "(el)", ENC, el=el)
     return mk
 
 
